@@ -320,6 +320,11 @@ def command_line(rng, info=None):
     names = list(NAMES)
     if info and info.get('names'):
         names += info['names'] + [':0.' + n for n in info['names']]
+    drive_args = list(DRIVE_ARGS)
+    if info and info.get('slots'):
+        # MMB: aim at the drives of the slots (slot k is drive 2k, or k under --drive-first), whatever their status
+        for k in info['slots']:
+            drive_args += [str(2 * k), str(k)] * 4
     pre = []
     if rng.random() < 0.25:
         pre.append('--verbose')
@@ -330,25 +335,28 @@ def command_line(rng, info=None):
     if rng.random() < 0.1:
         pre += ['--dir', rng.choice(['$', 'A', '', 'AB', '\x80', '.'])]
     if rng.random() < 0.1:
-        pre += ['--drive', rng.choice(DRIVE_ARGS)]
+        pre += ['--drive', rng.choice(drive_args)]
     if rng.random() < 0.08:
         pre.append(rng.choice(['--drive-first', '--drive-physical']))
     c = rng.choice(['cat', 'info', 'type', 'list', 'dump', 'free', 'space', 'sector-map', 'show-titles', 'dump-sector',
                     'extract-files', 'extract-unused', 'help', 'bogus', '', '--help'])
     if c in ('cat', 'free', 'sector-map'):
-        args = [c] + ([rng.choice(DRIVE_ARGS)] if rng.random() < 0.5 else []) + (['extra'] if rng.random() < 0.05 else [])
+        args = [c] + ([rng.choice(drive_args)] if rng.random() < 0.5 else []) + (['extra'] if rng.random() < 0.05 else [])
     elif c == 'space':
-        args = [c] + [rng.choice(DRIVE_ARGS) for _ in range(rng.choice([0, 1, 1, 2, 3]))]
+        args = [c] + [rng.choice(drive_args) for _ in range(rng.choice([0, 1, 1, 2, 3]))]
     elif c == 'show-titles':
-        args = [c] + [rng.choice(DRIVE_ARGS) for _ in range(rng.choice([0, 0, 1, 2]))]
+        args = [c] + [rng.choice(drive_args) for _ in range(rng.choice([0, 0, 1, 2]))]
     elif c == 'info':
         args = [c] + [rng.choice(WILDS) for _ in range(rng.choice([0, 1, 1, 1, 2]))]
     elif c in ('type', 'list', 'dump'):
         args = [c] + (['--binary'] if c == 'type' and rng.random() < 0.4 else []) + \
                [rng.choice(names) for _ in range(rng.choice([0, 1, 1, 1, 2]))]
     elif c == 'dump-sector':
-        args = [c] + [rng.choice(DRIVE_ARGS + ['0', '0', '1', '9', '10', '17', '18', '39', '40', '79', '80'])
-                      for _ in range(rng.choice([3, 3, 3, 2, 4, 0]))]
+        if rng.random() < 0.5:
+            args = [c, rng.choice(drive_args), rng.choice(['0', '0', '1', '39', '79', '80']), rng.choice(['0', '0', '1', '9', '10', '17'])]
+        else:
+            args = [c] + [rng.choice(drive_args + ['0', '0', '1', '9', '10', '17', '18', '39', '40', '79', '80'])
+                          for _ in range(rng.choice([3, 3, 3, 2, 4, 0]))]
     elif c in ('extract-files', 'extract-unused'):
         args = [c] + (['@DEST@'] if rng.random() < 0.85 else rng.choice([[], ['@DEST@', 'x'], ['/nonexistent/dir'], ['']]))
     elif c == 'help':
